@@ -276,7 +276,15 @@ pub fn gen_nat(rng: &mut Rng, max_bits: usize) -> BigU {
     }
 }
 
+/// lengths at which the LEB128 length prefix grows by a byte
+pub const LEN_BOUNDARIES: [usize; 6] = [127, 128, 129, 16383, 16384, 16385];
+
 pub fn gen_text(rng: &mut Rng) -> String {
+    if rng.chance(1, 96) {
+        let n = *rng.pick(&LEN_BOUNDARIES);
+        let c = (b'a' + rng.below(26) as u8) as char;
+        return std::iter::repeat(c).take(n).collect();
+    }
     match rng.below(8) {
         0 => String::new(),
         1..=3 => (0..rng.range(1, 8)).map(|_| (b'a' + rng.below(26) as u8) as char).collect(),
